@@ -352,6 +352,13 @@ def generate(rng, tier):
     return out
 
 
+def signature(r):
+    """class of a failing case: the default one with lists of addresses / totals collapsed, so that shrinking may drop blocks"""
+    import re
+    from vlib import flow
+    return re.sub(r"\[[^\]]*\]", "[..]", flow.default_signature(r))
+
+
 def translate(ctx):
     from translate import extract_leakdetector
     return extract_leakdetector.run()
